@@ -306,8 +306,10 @@ double Chain::bendCost(LinkShape bendType, size_t i0) const {
     double alpha0 = atan2(dy, dx) * 180 / 3.141592653589793;
     double cost;
     // Want a little helper function for checking angle ranges.
+    // (The lower bound is allowed too, since rounding can land us exactly there,
+    // e.g. alpha0 = -89.999999999999986 gives alpha0 - 45 == -135.)
     std::function<void(double, double)> check = [](double a, double L)->void{
-        COLA_ASSERT(-L < a && a <= L);
+        COLA_ASSERT(-L <= a && a <= L);
     };
     if (m_isCycle) {
         // For a cycle each type of bend has a specific angle associated with it,
